@@ -112,7 +112,7 @@ def mirror(ctx, case, spec, df):
     bad = []
     for ph in pa:
         ra, rb = pa[ph]["rows"], pb.get(ph, {"rows": {}})["rows"]
-        tt = H.TwinTol(ra)
+        tt = H.TwinTol(ra, rows2=rb)
         for n, x in ra.items():
             y = rb.get(n)
             if y is None:
